@@ -1,6 +1,7 @@
-(* Property C20 — Rewind restarts demuxing from a clean state (theorems only; proofs in Proofs/DemuxProofs.v). *)
+(* Property C20 — Rewind restarts demuxing from a clean state (theorems only; proofs in Proofs/DemuxProofs.v and Proofs/RewindProofs.v). *)
 From Coq Require Import ZArith List Bool.
-Require Import Base.Iter Gen.Types Model.Packet Model.Pool Model.Reader Model.Demux Proofs.ReaderProofs Proofs.DemuxProofs.
+Require Import Base.Iter Gen.Types Model.Packet Model.Pool Model.Reader Model.Demux Model.DemuxFull Model.Muxer
+  Proofs.ReaderProofs Proofs.DemuxProofs Proofs.RewindProofs.
 Import ListNotations.
 Open Scope Z_scope.
 
@@ -20,9 +21,122 @@ Theorem C20_reader_fresh : forall r, r_total r = Z.of_nat (length (r_all r)) -> 
 Proof. exact rewind_reader_fresh. Qed.
 Print Assumptions C20_reader_fresh.
 
-(* NOT proved here (full statement kept): the retained program map cannot change the output of a stream whose PMT PIDs
-   carry no packet before a PAT listing them is delivered.  Checked on every run by correspondence (every number of
-   calls before the Rewind, repeated rewinds) and by the oracle against a fresh Demuxer. *)
-Definition C20_pm_monotone_full : Prop := forall P prs skip r opt pm0 cs,
-  (forall x, In x pm0 -> True (* x is registered by a PAT of the stream before any packet of PID x *)) ->
+(* ---- the retained program map cannot change the output ("no residue") ----
+
+   The program map is consulted in two places only: packetAccumulator.add, for the PID of the packet being added (are
+   complete PSI sections flushed at once?), and parseData/isPSIPayload, for the PID of the group being parsed.
+   [calls_pf pm0 P prs skip cs s0] follows the run of the FRESH demuxer (state s0, calls cs) and says that at each of
+   these consultations the PID concerned, if it is in the retained map pm0, is already in the fresh run's own map
+   (agree pm0 pm x := pm_mem pm0 x = true -> pm_mem pm x = true): the stream's PATs precede its PMTs.
+   For every unit parser P, packets parser prs, skipper, reader (any kind, with or without fault), size option: *)
+Theorem C20_pm_monotone : forall P prs skip r opt pm0 cs,
+  calls_pf pm0 P prs skip cs (init_dstate r opt) ->
   calls P prs skip cs (with_pm (init_dstate r opt) pm0) = calls P prs skip cs (init_dstate r opt).
+Proof. exact pm_monotone. Qed.
+Print Assumptions C20_pm_monotone.
+
+(* the same with the hypothesis on arriving packets only: [calls_pk] constrains just the packets that reach the pool
+   (add_ok: a packet with a payload and without transport_error whose PID is in pm0 arrives only when the fresh run has
+   registered that PID); that the groups parsed later, including those of the end-of-stream drain, are then fine too
+   follows from a pool invariant (a queue holds packets of its own PID; a PID that has a queue passed add_ok; the
+   demuxer never unregisters a PID) *)
+Theorem C20_pm_monotone_packets : forall P prs skip r opt pm0 cs,
+  calls_pk pm0 P prs skip cs (init_dstate r opt) ->
+  calls P prs skip cs (with_pm (init_dstate r opt) pm0) = calls P prs skip cs (init_dstate r opt).
+Proof. exact pm_monotone_packets. Qed.
+Print Assumptions C20_pm_monotone_packets.
+
+Theorem C20_packets_hypothesis_suffices : forall pm0 P prs skip cs s,
+  pinv pm0 s -> calls_pk pm0 P prs skip cs s -> calls_pf pm0 P prs skip cs s.
+Proof. exact calls_of_pk. Qed.
+Print Assumptions C20_packets_hypothesis_suffices.
+
+(* the simulation behind both: two states that differ only in the program map (the second holding pm0 in addition) and
+   in the ghost logs return the same results for every sequence of calls *)
+Theorem C20_simulation : forall pm0 P prs skip cs s s', st_rel pm0 s s' -> calls_pf pm0 P prs skip cs s ->
+  calls P prs skip cs s' = calls P prs skip cs s.
+Proof. exact calls_sim. Qed.
+Print Assumptions C20_simulation.
+
+(* ---- C20: Rewind ---- *)
+
+(* at ANY state s whose reader is seekable (no reachability assumption at all), Rewind reports offset 0 and every
+   sequence of calls after it returns what a fresh demuxer on the same stream (same bytes from offset 0, same fault,
+   same size option) returns *)
+Theorem C20_rewind_any_state : forall P prs skip s cs, r_kind (d_reader s) = Seekable ->
+  calls_pf (d_pm s) P prs skip cs (init_dstate (r_seek0 (d_reader s)) (d_opt_size s)) ->
+  fst (rewind s) = 0 /\
+  calls P prs skip cs (snd (rewind s)) = calls P prs skip cs (init_dstate (r_seek0 (d_reader s)) (d_opt_size s)).
+Proof. exact rewind_equals_fresh. Qed.
+Print Assumptions C20_rewind_any_state.
+
+(* the form of the property text: a demuxer created on a seekable reader r, after ANY history of NextPacket / NextData
+   calls and earlier Rewinds ([run_ops]: in the middle of a unit, with parsed sections still buffered, at end of
+   stream, after an error), answers Rewind with 0 and then delivers, from the first packet again, exactly what a freshly
+   created demuxer on r delivers -- for every further sequence of calls, given that the fresh run is PAT-first with
+   respect to the map retained at that point *)
+Theorem C20_rewind : forall P prs skip r opt ops cs, fresh r -> r_kind r = Seekable ->
+  let s := run_ops P prs skip ops (init_dstate r opt) in
+  calls_pk (d_pm s) P prs skip cs (init_dstate r opt) ->
+  fst (rewind s) = 0 /\ calls P prs skip cs (snd (rewind s)) = calls P prs skip cs (init_dstate r opt).
+Proof. exact rewind_any_history_packets. Qed.
+Print Assumptions C20_rewind.
+
+Theorem C20_rewind_consultations : forall P prs skip r opt ops cs, fresh r -> r_kind r = Seekable ->
+  let s := run_ops P prs skip ops (init_dstate r opt) in
+  calls_pf (d_pm s) P prs skip cs (init_dstate r opt) ->
+  fst (rewind s) = 0 /\ calls P prs skip cs (snd (rewind s)) = calls P prs skip cs (init_dstate r opt).
+Proof. exact rewind_any_history. Qed.
+Print Assumptions C20_rewind_consultations.
+
+(* the hypothesis is monotone in the retained map, so ONE hypothesis about the stream -- it is PAT-first with respect
+   to a set pm1 of PMT PIDs -- covers every rewind point of every history at which the retained map lies within pm1 *)
+Theorem C20_hypothesis_monotone : forall pm0 pm1 P prs skip cs, pm_sub pm0 pm1 -> forall s,
+  calls_pk pm1 P prs skip cs s -> calls_pk pm0 P prs skip cs s.
+Proof. exact calls_pk_sub. Qed.
+Print Assumptions C20_hypothesis_monotone.
+
+Theorem C20_rewind_within : forall P prs skip r opt ops cs pm1, fresh r -> r_kind r = Seekable ->
+  let s := run_ops P prs skip ops (init_dstate r opt) in
+  pm_sub (d_pm s) pm1 -> calls_pk pm1 P prs skip cs (init_dstate r opt) ->
+  fst (rewind s) = 0 /\ calls P prs skip cs (snd (rewind s)) = calls P prs skip cs (init_dstate r opt).
+Proof. exact rewind_any_history_within. Qed.
+Print Assumptions C20_rewind_within.
+
+(* ---- the hypotheses are satisfiable, and the PAT-first hypothesis is needed ---- *)
+
+(* a stream written by the muxer model: PAT, PMT (PID 4096), PES on PID 256, tables again, PES; real unit parsers *)
+Definition ex_es : PMTElementaryStream :=
+  {| PMTElementaryStream_ElementaryPID := 256; PMTElementaryStream_ElementaryStreamDescriptors := [];
+     PMTElementaryStream_StreamType := 27 |}.
+Definition ex_md : MuxerData :=
+  {| MuxerData_PID := 256; MuxerData_AdaptationField := None;
+     MuxerData_PES := Some {| PESData_Data := [1; 2; 3; 4; 5];
+                              PESData_Header := Some {| PESHeader_OptionalHeader := None; PESHeader_PacketLength := 0;
+                                                        PESHeader_StreamID := 191 |} |} |}.
+Definition ex_bytes : list Z :=
+  concat (map mout_bytes (snd (mux_run (new_muxer 40)
+    [MAdd ex_es; MSetPCR 256; MWriteTables; MWriteData ex_md; MWriteTables; MWriteData ex_md]))).
+Definition ex_reader : reader := new_reader ex_bytes None Seekable.
+
+(* NextData, NextData, NextPacket, NextData (PAT, PMT, a raw packet, PMT: PID 4096 is registered, units pending), then
+   Rewind: the hypothesis of C20_rewind holds for ten further calls, and those calls do deliver data (6 tables, 2 PES,
+   then ErrNoMorePackets) *)
+Example C20_pat_first_example :
+  let ops := [OpCall CallData; OpCall CallData; OpCall CallPacket; OpCall CallData] in
+  let s := run_ops full_parsers None no_skip ops (init_dstate ex_reader 188) in
+  let cs := repeat CallData 10 in
+  fresh ex_reader /\ r_kind ex_reader = Seekable /\ d_pm s = [4096] /\
+  calls_pk (d_pm s) full_parsers None no_skip cs (init_dstate ex_reader 188) /\
+  map (@is_ok _) (calls full_parsers None no_skip cs (snd (rewind s))) =
+    [true; true; true; true; true; true; true; true; false; false].
+Proof. vm_compute. repeat split; intros; congruence. Qed.
+
+(* without the hypothesis the statement is false: with PID 256 (the PES PID, never registered by this stream) in the
+   retained map the PES units are parsed as PSI and lost.  This is why the property is stated for streams whose PAT
+   precedes their PMTs; it is not reachable by rewinding on this stream (d_pm only ever holds PIDs a PAT announced). *)
+Example C20_pat_first_needed :
+  let cs := repeat CallData 8 in
+  calls full_parsers None no_skip cs (with_pm (init_dstate ex_reader 188) [256]) <>
+  calls full_parsers None no_skip cs (init_dstate ex_reader 188).
+Proof. intros cs H. apply (f_equal (map (@is_ok _))) in H. vm_compute in H. discriminate. Qed.
